@@ -37,6 +37,14 @@ Theorem C06_prove_emits_iff_witness_valid : forall (K : Fld) (M : Mod K) bits ca
 Proof. exact prove_top_some_iff. Qed.
 Print Assumptions C06_prove_emits_iff_witness_valid.
 
+(** in particular the prover's DECISION does not depend on the randomness it is handed (nonces, hence the external generator) nor on the challenges:
+    what the check tests by proving every invalid witness again under zero / constant / periodic generators *)
+Theorem C06_prover_decision_independent_of_randomness : forall (K : Fld) (M : Mod K) bits cap T (g : gens K M) commitments promises values blindings wT nn ch nn' ch',
+  (prove_top K M bits cap T g commitments promises values blindings wT nn ch = None) <->
+  (prove_top K M bits cap T g commitments promises values blindings wT nn' ch' = None).
+Proof. exact prove_top_decision_independent. Qed.
+Print Assumptions C06_prover_decision_independent_of_randomness.
+
 (** ... and whenever it returns a proof, that proof verifies: presented with the statement's own commitments (first two
     conjuncts: the member record the verifier sees carries exactly them and exactly the emitted proof), it passes every guard
     of [verify_chunk] in both verifying modes and the final multiscalar product is the identity.  Hypotheses: what the
